@@ -23,7 +23,7 @@ WORKER = os.path.join(os.path.dirname(os.path.dirname(os.path.abspath(__file__))
 
 
 PROGRAMS = [f"{g}_{u}" for u in ("r_lit", "r_num", "c_pre", "ext", "cell") for g in ("G", "Series", "Wrapper")] + \
-    [f"{g}_{u}" for u in ("mos_n", "mos_p") for g in ("MosStack", "Series")] + ["long_scalar_names", "set_valued_params", "uncached_generator", "uncached_generator_direct", "tops_list", "tops_list_rev"]
+    [f"{g}_{u}" for u in ("mos_n", "mos_p") for g in ("MosStack", "Series")] + ["long_scalar_names", "set_valued_params", "uncached_generator", "uncached_generator_direct", "tops_list", "tops_list_rev", "nested_set_params", "after_other_spelling"]
 
 
 def corpus():
